@@ -106,6 +106,23 @@ fn units() -> Vec<(&'static str, &'static str, &'static str)> {
             "#[::entrait::entrait(DRepoImpl, delegate_by = ref)]\npub trait @T@ { fn dget(&self, x: u64) -> u64; }\npub struct MyDRepo;\n#[::entrait::entrait(ref)]\nimpl DRepoImpl for MyDRepo {\n    pub fn dget(_deps: &impl ::core::any::Any, x: u64) -> u64 { x + 15 }\n}\nimpl ::core::convert::AsRef<dyn DRepoImpl<App>> for App { fn as_ref(&self) -> &(dyn DRepoImpl<App> + 'static) { &MyDRepo } }\n",
             "{ let app = ::entrait::Impl::new(App); <::entrait::Impl<App> as @T@>::dget(&app, 5) }",
         ),
+        // the (possibly hostile-named) entraited leaf trait - implemented for `Impl<T>` only where `T` implements it - is the *dependency bound* of other entraited items: the macro copies the
+        // user's bound, and must not mistake it for the std item of the same name
+        (
+            "fn_dep_bound_is_t",
+            "#[::entrait::entrait]\npub trait @T@ { fn dbar(&self, x: u64) -> u64; }\nimpl @T@ for App { fn dbar(&self, x: u64) -> u64 { x * 3 } }\n#[::entrait::entrait(pub Outer)]\npub fn dfoo(deps: &impl @T@, x: u64) -> u64 { <_ as @T@>::dbar(deps, x) + 17 }\n#[::entrait::entrait(pub Outer2)]\npub async fn dfoo2<D: @T@ + ::core::marker::Sync>(deps: &D, x: u64) -> u64 { <D as @T@>::dbar(deps, x) + 18 }\n",
+            "{ let app = ::entrait::Impl::new(App); <::entrait::Impl<App> as Outer>::dfoo(&app, 5) + crate::rt::block_on(<::entrait::Impl<App> as Outer2>::dfoo2(&app, 5)) }",
+        ),
+        (
+            "mod_dep_bound_is_t",
+            "#[::entrait::entrait]\npub trait @T@ { fn mdbar(&self, x: u64) -> u64; }\nimpl @T@ for App { fn mdbar(&self, x: u64) -> u64 { x * 5 } }\n#[::entrait::entrait(pub OuterM)]\npub mod dm {\n    pub fn mdfoo(deps: &impl super::@T@, x: u64) -> u64 { <_ as super::@T@>::mdbar(deps, x) + 19 }\n    pub fn mdfoo2<D>(deps: &D, x: u64) -> u64 where D: super::@T@ { <D as super::@T@>::mdbar(deps, x) + 20 }\n}\n",
+            "{ let app = ::entrait::Impl::new(App); <::entrait::Impl<App> as OuterM>::mdfoo(&app, 5) + <::entrait::Impl<App> as OuterM>::mdfoo2(&app, 5) }",
+        ),
+        (
+            "impl_block_dep_bound_is_t",
+            "#[::entrait::entrait]\npub trait @T@ { fn idbar(&self, x: u64) -> u64; }\nimpl @T@ for App { fn idbar(&self, x: u64) -> u64 { x * 7 } }\n#[::entrait::entrait(IRepoImpl, delegate_by = DelegateIRepo)]\npub trait IRepo { fn iget(&self, x: u64) -> u64; }\npub struct MyIRepo;\n#[::entrait::entrait]\nimpl IRepoImpl for MyIRepo {\n    pub fn iget(deps: &impl @T@, x: u64) -> u64 { <_ as @T@>::idbar(deps, x) + 21 }\n}\nimpl DelegateIRepo<App> for App { type Target = MyIRepo; }\n",
+            "{ let app = ::entrait::Impl::new(App); <::entrait::Impl<App> as IRepo>::iget(&app, 5) }",
+        ),
         (
             "inversion_dyn_async_trait",
             "#[::entrait::entrait(ADRepoImpl, delegate_by = ref)]\n#[::async_trait::async_trait]\npub trait @T@ { async fn adget(&self, x: u64) -> u64; }\npub struct MyADRepo;\n#[::entrait::entrait(ref)]\n#[::async_trait::async_trait]\nimpl ADRepoImpl for MyADRepo {\n    pub async fn adget(_deps: &impl ::core::any::Any, x: u64) -> u64 { x + 16 }\n}\nimpl ::core::convert::AsRef<dyn ADRepoImpl<App> + ::core::marker::Sync> for App { fn as_ref(&self) -> &(dyn ADRepoImpl<App> + ::core::marker::Sync + 'static) { &MyADRepo } }\n",
@@ -133,26 +150,19 @@ fn module(name: &str, shadows: &[&str], unit_src: &str, expr: &str, trait_name: 
 
 pub fn gen_case(t: &mut Tape, excl_marker_shadows: bool, excl_blanket_methods: bool) -> Case {
     let us = units();
-    let (uname, usrc, uexpr) = us[t.choose(us.len())];
-    let mut shadows: Vec<&str> = vec![];
+    let ui = t.choose(us.len());
+    let usrc = us[ui].1;
+    let mut shadow_idx: Vec<usize> = vec![];
     let mut shadow_names: Vec<&str> = vec![];
     let n = t.weighted(&[1, 3, 3, 2, 2, 1]);
     for _ in 0..n {
-        let (nm, item) = SHADOWS[t.choose(SHADOWS.len())];
-        if shadow_names.contains(&nm) {
+        let si = t.choose(SHADOWS.len());
+        let (nm, _) = SHADOWS[si];
+        if shadow_names.contains(&nm) || !shadow_allowed(nm, usrc, excl_marker_shadows, excl_blanket_methods) {
             continue;
-        }
-        if excl_marker_shadows && (nm == "Sync" || nm == "Send") {
-            continue;
-        }
-        if excl_blanket_methods && nm.starts_with("blanket trait") {
-            continue;
-        }
-        if nm == "Box" && usrc.contains("async_trait") {
-            continue; // async_trait's own expansion refers to a bare `Box` (a foreign macro's capture, not entrait's)
         }
         shadow_names.push(nm);
-        shadows.push(item);
+        shadow_idx.push(si);
     }
     // sometimes the generated trait itself is named like something the macro refers to
     let mut hostile_trait = "Foo";
@@ -162,6 +172,45 @@ pub fn gen_case(t: &mut Tape, excl_marker_shadows: bool, excl_blanket_methods: b
             hostile_trait = cand;
         }
     }
+    make_case(ui, &shadow_idx, hostile_trait)
+}
+
+fn shadow_allowed(nm: &str, usrc: &str, excl_marker_shadows: bool, excl_blanket_methods: bool) -> bool {
+    if excl_marker_shadows && (nm == "Sync" || nm == "Send") {
+        return false;
+    }
+    if excl_blanket_methods && nm.starts_with("blanket trait") {
+        return false;
+    }
+    // async_trait's own expansion refers to a bare `Box` (a foreign macro's capture, not entrait's)
+    !(nm == "Box" && usrc.contains("async_trait"))
+}
+
+/// the deterministic part: every unit x every hostile trait name, and every unit x every single shadowing item
+pub fn lattice(excl_marker_shadows: bool, excl_blanket_methods: bool) -> Vec<Case> {
+    let us = units();
+    let mut out = vec![];
+    for ui in 0..us.len() {
+        for name in HOSTILE_TRAIT_NAMES {
+            if excl_marker_shadows && (name == "Sync" || name == "Send") {
+                continue;
+            }
+            out.push(make_case(ui, &[], name));
+        }
+        for (si, (nm, _)) in SHADOWS.iter().enumerate() {
+            if shadow_allowed(nm, us[ui].1, excl_marker_shadows, excl_blanket_methods) {
+                out.push(make_case(ui, &[si], "Foo"));
+            }
+        }
+    }
+    out
+}
+
+pub fn make_case(ui: usize, shadow_idx: &[usize], hostile_trait: &str) -> Case {
+    let us = units();
+    let (uname, usrc, uexpr) = us[ui];
+    let shadows: Vec<&str> = shadow_idx.iter().map(|i| SHADOWS[*i].1).collect();
+    let shadow_names: Vec<&str> = shadow_idx.iter().map(|i| SHADOWS[*i].0).collect();
     let mut src = String::from("#![allow(warnings)]\n");
     src.push_str(&module("benign", &[], usrc, uexpr, "Foo"));
     src.push_str(&module("hostile", &shadows, usrc, uexpr, hostile_trait));
@@ -210,11 +259,11 @@ fn no_std_src() -> String {
 pub const TAPE_LEN: usize = 24;
 
 pub fn run(ctx: &mut Ctx) {
-    ctx.rule = "cases = one of 13 usage units (fn with generic / async / by-value / no_deps+?Send / concrete deps, module, leaf trait static, ref, Borrow, ref+async_trait, dependency inversion \
-                static, ref, ref+async_trait), invoked by absolute path in a module without imports, x a generated subset of local items shadowing {Impl, Sync, Send, Future, AsRef, Borrow, Box, \
+    ctx.rule = "cases = one of 16 usage units (fn with generic / async / by-value / no_deps+?Send / concrete deps, module, leaf trait static, ref, Borrow, ref+async_trait, dependency inversion \
+                static, ref, ref+async_trait; fn / module / impl block whose dependency bound is the generated trait), invoked by absolute path in a module without imports, x a generated subset of local items shadowing {Impl, Sync, Send, Future, AsRef, Borrow, Box, \
                 Option, core, entrait, std, Sized, Output, Target, T, convert, marker, future, unimock, mockall} (structs, traits, modules) x optionally naming the generated trait Send/Sync/Future/\
                 Impl/AsRef/Sized; the hostile module must compile and compute the same value as the benign one; plus one #![no_std] crate with every unit; non-trivial = >=1 shadow or a hostile \
-                trait name; distinct = distinct program text"
+                trait name; distinct = distinct program text. Deterministic part: every unit x every hostile trait name and every unit x every single shadowing item; random part: subsets"
         .into();
     let open = crate::ev::open_findings("C19");
     let excl = open.iter().any(|f| f.key == "bare-sync-send-idents");
@@ -249,7 +298,9 @@ pub fn run(ctx: &mut Ctx) {
     }
     let n = ctx.n(1000, 10000) as usize;
     let tapes = crate::drive::gen_tapes(ctx.seed, 1900, n, TAPE_LEN);
-    let cases: Vec<Case> = tapes.iter().map(|tp| gen_case(&mut Tape::new(tp), excl, excl_blanket)).collect();
+    let mut cases: Vec<Case> = lattice(excl, excl_blanket);
+    ctx.extra.insert("deterministic_lattice_programs".into(), json!(cases.len()));
+    cases.extend(tapes.iter().map(|tp| gen_case(&mut Tape::new(tp), excl, excl_blanket)));
     let mut batch = Batch::new("c19", Opts { feature_unimock: false, members: 16, ..Default::default() });
     for (i, c) in cases.iter().enumerate() {
         batch.add(&format!("c{i:05}"), c.src.clone());
